@@ -8,7 +8,7 @@ from .. import matgen as M
 
 ID = "C10"
 PROPS = ["props/C10.v"]
-COQ_EXTRA = ["model/ShowMeta.vo", "model/ShowM.vo"]
+COQ_EXTRA = ["model/ShowMeta.vo", "model/ShowM.vo", "model/ShowR.vo"]
 XIMPORTS = ("From Coq Require Import List NArith Bool Arith.\nImport ListNotations.\n"
             "Require Import StrOrder Struct SpecMeta ShowMeta.\nOpen Scope N_scope.")
 RULE = ("formulas with interactions whose factors are not in alphabetical order, terms generating zero columns (single-level reduced factors), "
@@ -196,6 +196,51 @@ def run(ctx: Ctx):
         if i < 3:
             ctx.sample({"formula": f, "column_names": names, "term_indices": {repr(k): v for k, v in ms.term_indices.items()}})
     ctx.run_cases("metadata", XIMPORTS, "", "xcase", "chk_meta", lits, descr, shard=150)
+    _subset_replay_stream(ctx)
+
+
+def _subset_replay_stream(ctx: Ctx):
+    """the replay MODEL on subset specs: a spec subset to shuffled terms of its parent, re-used on the training data or on rows drawn
+    from it, gives what the model `replay` computes from the subset's own structure rows and the parent's recorded encoder state"""
+    from formulaic import Formula, model_matrix
+    from . import c04
+    rng = ctx.fork("subset-replay")
+    lits, descr = [], []
+    n = ctx.n(150, 3000)
+    tries = 0
+    while len(lits) < n and tries < 10 * n:
+        tries += 1
+        frame = M.gen_frame(rng, pnull=rng.choice([0, 0, 0.15]), cat_dtypes=("object", "object", "category", "str"))
+        terms = M.dedupe(M.gen_terms(rng, missing_p=0.0))
+        efr = rng.random() < 0.7
+        na = rng.choice(["drop", "drop", "ignore"])
+        output = rng.choice(["pandas", "numpy", "sparse"])
+        try:
+            mm = model_matrix(M.formula_of(terms), frame.to_pandas(), ensure_full_rank=efr, na_action=na, output=output)
+        except Exception:
+            continue
+        ms = mm.model_spec
+        keep = [t for t in ms.terms if rng.random() < 0.6] or list(ms.terms)[:1]
+        rng.shuffle(keep)
+        try:
+            sub = ms.subset(Formula(keep, _ordering="none"))
+        except Exception as e:
+            ctx.fail(f"subset to {keep}: {type(e).__name__}: {e}", {"kind": "subset-replay", "terms": terms})
+            continue
+        sub_terms = [[(fc.expr, fc.eval_method.value) for fc in t.factors] for t in sub.formula]
+        slit = c04.spec_literal(sub, sub_terms, efr, na)
+        mode = rng.choice(["same", "subset", "dup", "perm"])
+        frame2, ix = c04.derive_frame(rng, frame, mode)
+        cd = sorted(set(rng.randrange(frame2.n) for _ in range(rng.choice([0, 0, 1]))))
+        exp, kind, det = c04.run_replay(sub, frame2, cd, rng.random() < 0.3)
+        lits.append(c04.rcase_literal(slit, frame2, cd, exp))
+        descr.append({"train": frame.describe(), "terms": terms, "subset": [repr(t) for t in keep], "ensure_full_rank": efr, "na_action": na, "output": output,
+                      "followup": frame2.describe(), "mode": mode, "drop_rows": cd, "implementation": kind})
+        ctx.count("subset-replay", "mode=" + mode)
+        ctx.count("subset-replay", "outcome=" + kind.split(":")[0])
+        ctx.count("subset-replay", f"kept={len(keep)}/{len(ms.terms)}")
+        ctx.distinct.add(lits[-1])
+    ctx.run_cases("subset-replay", c04.RIMPORTS, "", "rcase", "chk_replay", lits, descr, shard=150)
 
 
 def search(ctx: Ctx):
